@@ -462,7 +462,10 @@ def run(chk):
         "the pairing of cells with external hyperlink targets of a serialised sheet is not compared after a save (the "
         "writer pairs them through two HashMaps, a C06 matter); the set of link cells and the bag of targets are",
         "edits are made in a marker zone (column >= 16000, row >= 1000000) that no corpus sheet uses; each slot is "
-        "used once; workbook-level row insertion/removal happens below every object (row 1040000)",
+        "used once; workbook-level row insertion/removal happens at row 1040000, below every object; every generated "
+        "sheet holds one formula per sheet of the file that refers to a cell below that row, so such an edit changes "
+        "what every sheet shows and the eager twin (in memory and saved) is the reference for it; on corpus files it is "
+        "only used where it leaves the eager workbook's sheets unchanged",
         "histories never remove or rename a sheet that a chart of another sheet takes its data from (the eager "
         "workbook cannot be saved then either); corpus files on which the eager load/save/reload fails are skipped",
         "valid file = pydec/lazy_view.py (python zipfile + ElementTree): zip opens, no duplicate member, xml/rels parts "
